@@ -9,7 +9,11 @@ RULE = (
     "with the model's eight (the property does not fix the enumeration order); transform_move: EVERY well-formed move of sizes "
     "3..8 under every matrix (exhaustive) plus an ill-formed stream, and every transformed table move must be equal (==, hash) "
     "to a table move and be a key of MOVES_TO_ID where that table exists; transform_position / symmetries: reachable and constructed positions, sizes 3..8, standard "
-    "AND custom reserves; commutation square run directly on the implementation: transform-then-play vs play-then-transform for "
+    "AND custom reserves, plus NEAR-SYMMETRIC positions: for every one of the eight a board symmetrised over the orbits of the "
+    "subgroup it generates (identity: the whole group) with ONE orbit member changed minimally (one buried flat added / removed / "
+    "recoloured of either colour, top kind or colour changed, part below the top reversed, bottom duplicated, square emptied), and the "
+    "same shape reached by legal play from the initial position (flats laid on two orbits, one piece slid onto one member while the "
+    "opponent moves a piece away and back); orbits come from the Lean model via the driver; commutation square run directly on the implementation: transform-then-play vs play-then-transform for "
     "every matrix x sampled position x every well-formed move of the size (size 8 quick tier: a sample) plus ill-formed moves; "
     "invariance of winner(), to_move(), ply, stones, size. One evaluation = one compared output. Non-trivial = a commutation "
     "square whose move was accepted, a transformed position that differs from its source, or a variants list with 1 < n < 8 or n = 8 entries."
@@ -183,6 +187,198 @@ def _is_custom(pos):
     return std.stones != pos.stones
 
 
+# ------------------------------------------------------------------ near-symmetric positions
+#
+# A position invariant under a subgroup H of the eight (built by putting the same stack on every
+# square of an H-orbit), then ONE orbit member perturbed minimally.  Such a position differs from
+# some of its images in a single square and in the smallest possible way, which is where a
+# de-duplication (or any comparison of variants) that looks at less than the whole position goes
+# wrong.  The action of the eight on squares is taken from the Lean model through the driver
+# (`tmove` on a placement), not from a table kept here.
+
+
+def _sigma_maps(size):
+    """maps[k][(x, y)] = image of the square under the k-th matrix of the model"""
+    sqs = [(x, y) for x in range(size) for y in range(size)]
+    lines = ["symmetry tmove %d %d %d %d 1 none" % (k, size, x, y) for k in range(8) for (x, y) in sqs]
+    outs = driver.run_lines(lines)
+    maps = []
+    it = iter(outs)
+    for k in range(8):
+        m = {}
+        for sq in sqs:
+            t = next(it).split(" ")
+            m[sq] = (int(t[1]), int(t[2]))
+        maps.append(m)
+    return maps
+
+
+def _orbits(size, gens):
+    """orbits of the squares under the group generated by the maps `gens`"""
+    seen, out = set(), []
+    for x in range(size):
+        for y in range(size):
+            if (x, y) in seen:
+                continue
+            orb, todo = {(x, y)}, [(x, y)]
+            while todo:
+                a = todo.pop()
+                for g in gens:
+                    b = g[a]
+                    if b not in orb:
+                        orb.add(b)
+                        todo.append(b)
+            seen |= orb
+            out.append(sorted(orb))
+    return out
+
+
+def _piece(col, kind):
+    from tak import pieces
+
+    return pieces.Piece.cached(pieces.Color(col), pieces.Kind(kind))
+
+
+def _perturbations(st):
+    """every minimal change of one stack (top first): (name, new stack)"""
+    col = lambda pc: pc.color.value
+    out = []
+    top, below = st[0], st[1:]
+    for c in (0, 1):
+        out.append(("bottom+%s" % "WB"[c], st + [_piece(c, 0)]))
+        out.append(("under-top+%s" % "WB"[c], [top] + [_piece(c, 0)] + below))
+    out.append(("dup-bottom", st + [_piece(col(st[-1]), 0)]))
+    out.append(("top-kind", [_piece(col(top), (top.kind.value + 1) % 3)] + below))
+    out.append(("top-colour", [_piece(1 - col(top), top.kind.value)] + below))
+    out.append(("emptied", []))
+    if below:
+        out.append(("remove-bottom", st[:-1]))
+        out.append(("remove-under-top", [top] + below[1:]))
+        out.append(("recolour-bottom", st[:-1] + [_piece(1 - col(st[-1]), 0)]))
+        out.append(("recolour-under-top", [top, _piece(1 - col(below[0]), 0)] + below[1:]))
+        if list(reversed(below)) != below:
+            out.append(("reverse-below-top", [top] + list(reversed(below))))
+    return out
+
+
+def _mk_position(rng, size, board):
+    import tak
+
+    return tak.Position(
+        size=size,
+        stones=(
+            tak.StoneCounts(rng.randrange(0, 40), rng.randrange(0, 3)),
+            tak.StoneCounts(rng.randrange(0, 40), rng.randrange(0, 3)),
+        ),
+        ply=rng.choice([2, 3, 4, 7, 10, 21]),
+        board=board,
+    )
+
+
+def near_symmetric_constructed(rng, size, maps, per_sigma=2):
+    """for every sigma of the eight: bases invariant under <sigma> (identity: the whole group), one
+    orbit member perturbed in every minimal way"""
+    out = []
+    for k in range(8):
+        gens = [maps[k]]
+        if all(maps[k][a] == a for a in maps[k]):
+            gens = maps  # the identity: symmetrise under the whole group instead
+        orbits = _orbits(size, gens)
+        big = [o for o in orbits if len(o) >= 2]
+        if not big:
+            continue
+        for b in range(per_sigma):
+            board = [[] for _ in range(size * size)]
+            chosen = rng.sample(orbits, min(len(orbits), rng.choice([1, 2, 3])))
+            target = rng.choice(big)
+            if target not in chosen:
+                chosen.append(target)
+            for orb in chosen:
+                # base 0: single pieces; later bases: taller stacks (buried pieces are flats)
+                h = 1 if (b == 0 and orb is not target) else rng.choice([1, 2, 2, 3, 4])
+                if orb is target:
+                    h = 1 if b == 0 else rng.choice([2, 3, 4])
+                st = [_piece(rng.randrange(2), rng.choice([0, 0, 0, 1, 2]))] + [_piece(rng.randrange(2), 0) for _ in range(h - 1)]
+                for (x, y) in orb:
+                    board[x + y * size] = list(st)
+            ax, ay = rng.choice(target)
+            base_stack = board[ax + ay * size]
+            out.append(("nearsym:symmetric-base", _mk_position(rng, size, [list(q) for q in board])))
+            for name, st2 in _perturbations(base_stack):
+                b2 = [list(q) for q in board]
+                b2[ax + ay * size] = list(st2)
+                out.append(("nearsym:" + name, _mk_position(rng, size, b2)))
+    return out
+
+
+def near_symmetric_reachable(rng, size, maps):
+    """the same shape reached by legal play from the initial position (standard and custom reserves):
+    Black's and White's flats are laid on two <sigma>-orbits of equal size; then one side puts a piece next
+    to one of its orbit members and slides it onto that member, while the other side moves one of its own
+    pieces away and back.  Result: sigma-symmetric except for ONE extra piece in ONE stack."""
+    import tak
+
+    MT = tak.MoveType
+    dirs = {(-1, 0): MT.SLIDE_LEFT, (1, 0): MT.SLIDE_RIGHT, (0, 1): MT.SLIDE_UP, (0, -1): MT.SLIDE_DOWN}
+
+    def chain(sig, o):  # the orbit in the order sigma runs through it
+        c, a = [o[0]], sig[o[0]]
+        while a != o[0]:
+            c.append(a)
+            a = sig[a]
+        return c
+
+    out = []
+    for k in range(8):
+        sig = maps[k]
+        if all(sig[a] == a for a in sig):
+            continue
+        orbits = [o for o in _orbits(size, [sig]) if len(o) >= 2]
+        for white_stacks in (True, False):
+            rng.shuffle(orbits)
+            pairs = [(ou, ov) for ou in orbits for ov in orbits if ou is not ov and len(ou) == len(ov)]
+            for ou, ov in pairs:
+                used = set(ou) | set(ov)
+                cu, cv = chain(sig, ou), chain(sig, ov)  # Black's flats go on u, White's on v
+                r = len(cu)
+
+                def free_nb(a, avoid):
+                    for (dx, dy) in dirs:
+                        b = (a[0] + dx, a[1] + dy)
+                        if 0 <= b[0] < size and 0 <= b[1] < size and b not in used and b not in avoid:
+                            return b, (dx, dy)
+                    return None
+
+                tgt, oth = (cv[0], cu[0]) if white_stacks else (cu[0], cv[0])
+                fd = free_nb(tgt, set())
+                fn = free_nb(oth, {fd[0]} if fd else set())
+                if fd is None or fn is None:
+                    continue
+                (d, dd), (n, dn) = fd, fn
+                cfg = rng.choice([tak.Config(size=size), tak.Config(size=size, pieces=r + 3, capstones=rng.choice([0, 1, 2]))])
+                # ply 0 (White) lays Black's flat on u, ply 1 (Black) lays White's flat on v; from ply 2 on
+                # each side lays its own colour: White continues on v, Black on u.  After 2r plies: White to move.
+                seq = [tak.Move(cu[0][0], cu[0][1]), tak.Move(cv[0][0], cv[0][1])]
+                for i in range(1, r):
+                    seq.append(tak.Move(cv[i][0], cv[i][1]))
+                    seq.append(tak.Move(cu[i][0], cu[i][1]))
+                kind = rng.choice([MT.PLACE_FLAT, MT.PLACE_FLAT, MT.PLACE_STANDING])
+                place = tak.Move(d[0], d[1], kind)  # a piece next to the target ...
+                onto = tak.Move(d[0], d[1], dirs[(-dd[0], -dd[1])], (1,))  # ... slid onto it
+                away = tak.Move(oth[0], oth[1], dirs[dn], (1,))  # the other side: away ...
+                back = tak.Move(n[0], n[1], dirs[(-dn[0], -dn[1])], (1,))  # ... and back
+                seq += [place, away, onto, back] if white_stacks else [away, place, back, onto]
+                pos = tak.Position.from_config(cfg)
+                try:
+                    for m in seq:
+                        pos = pos.move(m)
+                except tak.IllegalMove:
+                    continue
+                out.append(("nearsym-reach:%s-slides-onto-orbit-member" % ("white" if white_stacks else "black"), pos))
+                break
+    return out
+
+
 # ------------------------------------------------------------------ tie
 
 
@@ -285,6 +481,16 @@ def tie(ctx):
         # squares are expensive: all positions get tpos/variants/invariants, a subset gets the full square
         nsq = max(2, len(sample) // 3) if not ctx.thorough else max(3, len(sample) // 2)
         sq_idx = set(rng.sample(range(len(sample)), min(nsq, len(sample))))
+        # near-symmetric positions (constructed for every sigma x every minimal perturbation, and reached by play)
+        maps = _sigma_maps(size)
+        near = near_symmetric_constructed(rng, size, maps, per_sigma=4 if ctx.thorough else 2) + near_symmetric_reachable(rng, size, maps)
+        near_from = len(sample)
+        sample = sample + near
+        near_sq = rng.sample(range(near_from, len(sample)), min(len(near), 6 if ctx.thorough else 2))
+        sq_idx |= set(near_sq)
+        if near:
+            sq_idx.add(len(sample) - 1)  # a reached one
+        near_cap = 4000 if ctx.thorough else 700
         # make sure a custom-reserve position is among them
         customs = [j for j, (_, p) in enumerate(sample) if _is_custom(p)]
         if customs:
@@ -294,6 +500,8 @@ def tie(ctx):
             custom = _is_custom(pos)
             ctx.count("pos:size%d" % size)
             ctx.count("pos:" + label.split(":")[0])
+            if label.startswith("nearsym"):
+                ctx.count(label)
             ctx.count("pos:custom-reserves" if custom else "pos:standard-reserves")
             tps = {}
             for i, sym, k in usable:
@@ -321,6 +529,8 @@ def tie(ctx):
             vmeta.append((ps, vtxt, vo if pair_ok else vo + " (an entry is not the image under its own matrix)"))
             n = len(vtxt)
             ctx.count("variants:n=%d" % n)
+            if label.startswith("nearsym"):
+                ctx.count("nearsym:variants:n=%d" % n)
             if n > 1:
                 ctx.nontrivial("variants|" + ps)
             # commutation square
@@ -328,13 +538,16 @@ def tie(ctx):
                 continue
             ctx.count("square:positions")
             moves = universe
-            if cap is not None and len(universe) > cap:
+            cap_j = cap
+            if j >= near_from:
+                cap_j = min(cap, near_cap) if cap is not None else near_cap
+            if cap_j is not None and len(universe) > cap_j:
                 legal = []
                 try:
                     legal = [m for m in pos.all_moves()]
                 except Exception:
                     pass
-                moves = legal + rng.sample(universe, cap)
+                moves = legal + rng.sample(universe, cap_j)
             moves = list(moves) + gen.illformed_moves(rng, size, ill_n, pos)
             for m in moves:
                 base = _base(pos, m)
